@@ -8,6 +8,7 @@ From Utp Require Import Wire.Header Mtu.SegSizes.
 From Utp Require Import Rx.Rx Tx.Segments Tx.Ring.
 From Utp Require Import Cubic.F64 Cubic.Cubic Cubic.Libm.
 From Utp Require Import Sock.Dispatcher Sock.DispObs.
+From Utp Require Import Sock.DispHostile.
 From Utp Require Import Conn.C10_Pred Conn.C02_Pred.
 From Utp Require Import Conn.C17_Pred Conn.C03_Pred.
 From Utp Require Import Conn.C05_Pred Conn.C06_Pred.
@@ -52,6 +53,7 @@ Extraction "model"
   c11_emitted_ok c11_conn_types_ok c11_config_ok c11_dstep_ok c04_consumed_honest_ok
   c05_window_ok2 c05_rto_exit_ok2 c05_zero_window_ok_open c05_zero_window_strict_or_d16_open c05_monitor_core_ok c05_win_guard
   c15_obs_ok_b setmss_runs_ok
+  c10_disp_step_ok c10_disp_bounds_ok c10_disp_trace_ok parse_raw dmsg_of_header handle_recv_raw rtrace
   c18_off_all_segmented_ok c18_drain_sends_ok c18_buffered_segmented_ok c18_pre_ok
   c06_emitted_live_ok_g c06_no_resend_acked_g c06_fast_retx_ok_g
   c02_pair_settled_ok
